@@ -1575,6 +1575,11 @@ func (r *Runner) step(s Step) error {
 			o = *s.IO
 			co.IterOptions = r.iterOptions(o)
 		}
+		// a clone with new bounds must respect the read restrictions of its
+		// reader (classic snapshot with later excises, EFOS protected ranges)
+		if rd := r.restrictionOf(h); rd != nil && !rd.readable(o) {
+			return nil
+		}
 		it, err := h.it.Clone(co)
 		if err != nil {
 			return fmt.Errorf("Clone: unexpected error: %v", err)
